@@ -9,11 +9,14 @@ CHECKS = {
          "semantics of the emitted SystemVerilog subset (context-width sizing of 11.6/11.8): for every well-typed (hypothesis WT = the type checker's invariant) expression, reference, "
          "right-hand side and statement, evaluating the translated SV gives the PyMTL value / store (expr_correct, ref_correct, rhs_correct, stmt_correct, stmt_sim, for_unrolls), for "
          "both readings of the size cast; non-blocking assignment is last-wins and commits in order; the single-driver checker is sound and complete; a single-driver acyclic design has "
-         "a unique fixed point independent of block order (reusing the C01 theory). Tie to the code: generated hierarchical components are translated by the real VerilogTranslationPass, "
+         "a unique fixed point independent of block order (reusing the C01 theory). The structural part that decides WHICH connection assigns are emitted WHERE is inside the model "
+         "too (Model/SConn.lean, Props/C03s.lean: gen_connections + StructuralRTLIRGenL1Pass._gen_metadata): for every hierarchy the filed pairs form a spanning tree of each net rooted at "
+         "its writer, the hosting rule is total on legal statements, rejection happens exactly for statements filed elsewhere or redundant, and an accepted design emits exactly the tree "
+         "edges: single driver, every member equals its writer at the unique fixed point, in connect order. Tie to the code: generated hierarchical components are translated by the real VerilogTranslationPass, "
          "the text is parsed by an independent IEEE-precedence parser, executed by the Lean semantics and compared cycle by cycle with the PyMTL simulation on every output; per update "
          "block the parsed real text is compared with tr(real typed RTLIR) on sampled stores.",
          "PARTIAL: the SV semantics is a formalisation that cannot be cross-validated here (no Verilog simulator in the sandbox) and is part of the trusted base; 'syntactically valid' "
-         "means accepted by harness/checks/c03_svparse.py; the structural translator is covered by executing the parsed text, not by a theorem; WT is a hypothesis (C10 relates it to the "
+         "means accepted by harness/checks/c03_svparse.py; of the structural translator, connection placement / orientation is proved (C03s) while declarations, instances and the rendering of a pair into text are covered by executing the parsed text; WT is a hypothesis (C10 relates it to the "
          "checker). Known finding C03-F17 (negative-step loops wrap in unsigned arithmetic).",
          "Lean 4 proof (translation correctness under context-width semantics) + translation validation by parsing and executing the real emitted text", "DESIGN.md §5 C03"),
  'C12': ("Lean 4 proof: the flat port map of the Yosys backend is exact — each flattened leaf is the slice [msb:lsb] of the packed value of the original port (flat_is_slice), the leaf "
